@@ -322,6 +322,16 @@ func (c *oCache) TryRemove(id string) (ok bool, err error) {
 	c.mu.Unlock()
 	simhook.Yield("ocache.TryRemove.afterLookup")
 
+	// an entry which is still loading (or failed to load) has no value to close
+	select {
+	case <-e.load:
+		if e.value == nil {
+			return false, ErrNotExists
+		}
+	default:
+		return false, nil
+	}
+
 	prevState, _, _ := e.setClosing(context.Background(), false)
 	if prevState == entryStateClosing || prevState == entryStateClosed {
 		return false, nil
